@@ -257,6 +257,9 @@ for n, what in (("w3a_login_finish_decision", "decision part: reflected value re
       "identities/context absent (a, b) or explicit (c); 69-byte state, 117-byte response, password(2), KSF behaviour, KE outcome symbolic",
       covers=(["reflected", "ksf failure", "invalid login", "mac rejected"] if n.startswith("w3a") else ["ok"]), loops=DRAIN + KEYLOOPS, timeout=1500, mem_gb=20, **WDEP)
 W3Q = ["w3a_login_finish_decision", "w3b_login_finish_outputs", "w3c_login_finish_ke_args"]
+H("w3e_login_finish_early", "h_wire::w3e_login_finish_early",
+  "ClientLogin::finish, the exits before any unmasking: reflected value => ReflectedValueError and nothing computed; failing KSF => Err, evaluated once on Finalize(pw given to finish, blind, evaluation), with the caller's instance or the default; no key exchange",
+  "69-byte state, 117-byte response, password(2), KSF instance present/absent with symbolic tag", covers=["reflected", "explicit instance", "default instance"], loops=DRAIN + KEYLOOPS, timeout=1200, mem_gb=12, **WDEP)
 for n, d in (("record", "registered user, no ids/context, credential id 2 bytes"), ("record_ids_ctx", "registered user, explicit ids and context, empty credential id"),
              ("unregistered", "no password file, credential id 2 bytes"), ("unregistered_ids_ctx", "no password file, server id empty, context")):
     H("w2_server_login_start_" + n, "h_wire::w2_server_login_start_" + n,
@@ -302,22 +305,22 @@ S12 = S12 + ["s12_mac_update_iter_long", "s12_digest_chain_iter_long"]
 
 PROPERTIES["C01"] = dict(
     quick=SELF + ["s2_client_reg_start_pw2", "s3_client_login_start_pw2", "s4_server_reg_start_cred2", "c03_server_finish_exact",
-                  "w1_client_reg_finish_default_ids", "w2_server_login_start_record"] + W3Q,
-    thorough=["lemma_spec_ke_agreement", "w3_client_login_finish_default_ids", "s2_client_reg_start_pw0", "s3_client_login_start_pw0", "s4_server_reg_start_cred0"] + W1[1:] + W2[1:] + W3[1:]
+                  "w1_client_reg_finish_default_ids", "w2_server_login_start_record", "w3e_login_finish_early"],
+    thorough=["lemma_spec_ke_agreement", "w3_client_login_finish_default_ids"] + W3Q + [ "s2_client_reg_start_pw0", "s3_client_login_start_pw0", "s4_server_reg_start_cred0"] + W1[1:] + W2[1:] + W3[1:]
              + S6[:2] + ["s7_oprf_key_from_seed", "s8_mask_response", "s8_unmask_response"] + S9U + S9W + S10 + ["s11_derive_3dh_keys"] + LEMMAS,
     assumptions=["each of the eight public steps equals the RFC 9807 step from an arbitrary valid state (S2-S4, S1, W1-W3 with the crate-private units replaced by references proved equal in S6-S11); honest agreement of the composed reference is lemma R1; the algebra of the 20 real suites (DH commutes, unblinding inverts blinding) is not encoded",
                  "production build: the harnesses compile opaque-ke without cfg(test), so the production blind() branch and result tuples are what is executed"])
 PROPERTIES["C02"] = dict(
-    quick=SELF + S6[:2] + ["s6_pwd_too_long", "s2_client_reg_start_pw2", "s3_client_login_start_pw2", "w3a_login_finish_decision"],
-    thorough=W3 + W3Q[1:] + ["s3_client_login_start_pw0", "s3_client_login_start_pw2", "s8_unmask_response", "s9_open_raw_exact"] + S9W[4:] + S10[1:] + ["lemma_hmac_eq"],
+    quick=SELF + S6[:2] + ["s6_pwd_too_long", "s2_client_reg_start_pw2", "s3_client_login_start_pw2", "w3e_login_finish_early"],
+    thorough=W3 + W3Q + ["s3_client_login_start_pw0", "s3_client_login_start_pw2", "s8_unmask_response", "s9_open_raw_exact"] + S9W[4:] + S10[1:] + ["lemma_hmac_eq"],
     assumptions=[CRYPTO_NOTE, "passwords of 0..3 bytes symbolically; the 65536-byte refusal separately; other lengths are outside the bound"])
 PROPERTIES["C03"] = dict(
     quick=SELF + ["c03_server_finish_exact", "d_cred_fin", "d_server_login"],
     thorough=["lemma_hmac_eq", "d_all_cred_fin", "d_all_server_login"],
     assumptions=["the server accepts exactly HMAC(km3, transcript hash) of its own pending state — proved for every 24-byte state and every 8-byte finalization; that another session's MAC differs is unforgeability of HMAC (not decided)"])
 PROPERTIES["C04"] = dict(
-    quick=SELF + W3Q + ["d_cred_resp", "s9_open_raw_exact"],
-    thorough=S10[1:] + ["s8_unmask_response"] + W3 + S9W[4:] + ["lemma_spec_prefix_injective"],
+    quick=SELF + ["w3e_login_finish_early", "d_cred_resp", "s9_open_raw_exact"],
+    thorough=S10[1:] + ["s8_unmask_response"] + W3 + W3Q + S9W[4:] + ["lemma_spec_prefix_injective"],
     assumptions=[CRYPTO_NOTE])
 PROPERTIES["C05"] = dict(
     quick=SELF + S12 + ["s9_construct_aad_order", "s7_oprf_key_from_seed", "s10_expand_label_limits", "lemma_spec_prefix_injective"],
@@ -328,8 +331,8 @@ PROPERTIES["C06"] = dict(
     thorough=W3 + S9W + ["s8_mask_response", "s8_unmask_response"],
     assumptions=[CRYPTO_NOTE])
 PROPERTIES["C08"] = dict(
-    quick=SELF + ["s13_dummy_record", "w2_server_login_start_unregistered", "w3a_login_finish_decision", "c03_server_finish_exact", "d_cred_resp"],
-    thorough=["w2_server_login_start_unregistered_ids_ctx", "w2_server_login_start_external_key_unregistered", "w2_server_login_start_record"] + W3,
+    quick=SELF + ["s13_dummy_record", "w2_server_login_start_unregistered", "w3e_login_finish_early", "c03_server_finish_exact", "d_cred_resp"],
+    thorough=["w2_server_login_start_unregistered_ids_ctx", "w2_server_login_start_external_key_unregistered", "w2_server_login_start_record", "w3a_login_finish_decision"] + W3,
     assumptions=["'unpredictably' and 'the client always fails on a fake response' are probabilistic statements and are not decided; decided: the fake record (fresh masking key, zero envelope, fake key), the same evaluation function and code path as for a registered user, the error mapping to InvalidLoginError, and exactness of the server's final check"])
 PROPERTIES["C09"] = dict(
     quick=SELF + ["s7_oprf_key_from_seed", "s4_server_reg_start_cred2", "s2_client_reg_start_pw2", "s9_seal_raw", "s10_expand_label_limits", "g3_x25519_derive", "s14_derive_auth_keypair_loop"],
@@ -360,11 +363,11 @@ PROPERTIES["C14"] = dict(
     thorough=W1 + W2[:3] + ["s3_client_login_start_pw2"],
     assumptions=[CRYPTO_NOTE, "obliviousness is decided as data flow: the blind is the tape value and occurs in no output other than request = blind*H(pw); the password-derived secrets equal a reference that does not mention the blind"])
 PROPERTIES["C15"] = dict(
-    quick=SELF + S6 + ["w1_client_reg_finish_default_ids", "w3a_login_finish_decision"],
-    thorough=W1[1:] + W3 + W3Q[1:],
+    quick=SELF + S6 + ["w1_client_reg_finish_default_ids", "w3e_login_finish_early"],
+    thorough=W1[1:] + W3 + W3Q,
     assumptions=["the Argon2 adapter (ksf.rs:38-47) is memory-hard by construction and is not encoded; the model KSF records its calls, argument and instance and returns a symbolic output or an error"])
 PROPERTIES["C16"] = dict(
-    quick=SELF + ["s9_seal_raw", "s9_open_raw_exact", "s9w_seal_client_only", "s9w_seal_server_only", "w1_client_reg_finish_default_ids", "w3b_login_finish_outputs"],
+    quick=SELF + ["s9_seal_raw", "s9_open_raw_exact", "s9w_seal_client_only", "s9w_seal_server_only", "w1_client_reg_finish_default_ids"],
     thorough=S9W + W1[1:] + W3 + W3Q,
     assumptions=[CRYPTO_NOTE, "'no secret appears verbatim in any message' is covered only in the sense that every message byte is a specified function (C09) none of which is the export key, session key or password"])
 PROPERTIES["C17"] = dict(
